@@ -3,7 +3,7 @@
 From Coq Require Import List Arith Bool ZArith NArith Lia.
 Import ListNotations.
 From CV Require Import Driver.Round Driver.RoundProofs Driver.Outcome Driver.OutcomeProofs
-  Driver.RunPass Driver.RunPassProofs.
+  Driver.RunPass Driver.RunPassProofs Driver.SpecProofs.
 
 (* Generic in the result-checking function: for EVERY parallelism N, EVERY schedule (stream of
    completion answers) and every side state, if ACCEPT is a static class, nothing RAISEs and
@@ -47,6 +47,21 @@ Theorem C02_file_loop_schedule_independent :
   let r := rounds St test fuel rc p f d s start succ x worked exec sch acc in
   (f_disk r, f_worked r, f_acc r, f_exit r) = rounds_spec St test fuel rc p f d s start succ worked acc.
 Proof. exact rounds_sched_indep. Qed.
+
+(* The whole reduction (first / main loop / last, any number of files, cache off): accepted
+   sequence, final files and exit are the same for any two parallelism levels, any two
+   schedules and any two report-directory states — they are those of a specification that has
+   no schedule at all (Driver/SpecProofs.v reduce_spec). *)
+Theorem C02_reduce_schedule_independent :
+  forall (St : Type) (test : disk -> tout) (rc : rcfg) (first main last : list (pass St)) (m1 m2 : mst) (n1 n2 : nat),
+  let allp := first ++ main ++ last in
+  (forall p q, In p allp -> In q allp -> p_key St p = p_key St q -> p = q) ->
+  g_die (r_g rc) = false -> Forall (well_behaved St test rc) allp ->
+  m_disk m1 = m_disk m2 -> m_start m1 = m_start m2 -> m_cache m1 = [] -> m_cache m2 = [] ->
+  let r1 := reduce St test (with_run true n1 rc) first main last m1 in
+  let r2 := reduce St test (with_run true n2 rc) first main last m2 in
+  m_disk (fst (fst r1)) = m_disk (fst (fst r2)) /\ snd (fst r1) = snd (fst r2) /\ snd r1 = snd r2.
+Proof. exact reduce_sched_indep. Qed.
 
 (* Non-vacuity: a candidate list with IGNORE, ACCEPT and a STOP suffix satisfies the contract. *)
 Definition ex_g := mkcfg 3 false false None false None 500 20 10 250.
